@@ -15,7 +15,8 @@ def by_event(lines):
 
 
 def events(case):
-    return [e.strip() for e in case["script"].split(";")]
+    # `startown` is `start` with the library's method called on the stored handle itself instead of a clone of it
+    return [("start " + e.strip()[9:]) if e.strip().startswith("startown ") else e.strip() for e in case["script"].split(";")]
 
 
 def wire_of(lines):
